@@ -155,13 +155,20 @@ def fastcc(
                 rxns_to_check = list(set(rxns_to_check).difference(rxns_to_keep))
 
             else:
-                rxns_to_flip = list(set(rxns_to_check).difference(irreversible_rxns))
-                _flip_coefficients(model, rxns_to_flip)
-                sol = model.optimize(min)
-                to_add_rxns = sol.fluxes.index[sol.fluxes.abs() > zero_cutoff].tolist()
-                rxns_to_keep.extend(
-                    [model.reactions.get_by_id(rxn) for rxn in to_add_rxns]
-                )
+                # The sparse mode found no further reaction. Decide each of the
+                # remaining reactions on its own: it is consistent if and only
+                # if it can carry a non-zero flux in one of the two directions.
+                for rxn in rxns_to_check:
+                    model.objective = rxn
+                    for direction in ("max", "min"):
+                        model.objective_direction = direction
+                        value = model.slim_optimize()
+                        if (
+                            model.solver.status == "unbounded"
+                            or abs(value) > zero_cutoff
+                        ):
+                            rxns_to_keep.append(rxn)
+                            break
                 # since this is the last iteration, it needs to break or else
                 # it will run forever since rxns_to_check won't be empty
                 break
